@@ -97,11 +97,32 @@ def install():
     class_invariant(http_utils.HTTPFile, _cache_bound, skip=("close",))
 
 
-def gen_ops(rng, size, cs, n_ops):
+def model_readline(blob, pos, limit):
+    """io.BytesIO semantics: up to and including the next newline, at most `limit` bytes when
+    limit >= 0, empty at or beyond the end."""
+    if pos >= len(blob):
+        return b""
+    j = blob.find(b"\n", pos)
+    end = len(blob) if j < 0 else j + 1
+    if limit is not None and limit >= 0:
+        end = min(end, pos + limit)
+    return blob[pos:end]
+
+
+def gen_ops(rng, size, cs, n_ops, blob=None, p_line=0.0):
     ops = []
     pos = 0
     for _ in range(n_ops):
         r = rng.random()
+        if blob is not None and rng.random() < p_line:
+            # line-wise access (io.IOBase API of the file object)
+            q = rng.random()
+            limit = None if q < 0.5 else (-1 if q < 0.6 else int(rng.integers(0, 2 * cs + 2)))
+            if limit in (None, -1) and len(model_readline(blob, pos, None)) > 600:
+                limit = int(rng.integers(1, 300))       # (keeps byte-wise fallbacks cheap)
+            ops.append(("readline", limit))
+            pos = min(pos + len(model_readline(blob, pos, limit)), max(size, pos))
+            continue
         if r < 0.30:
             # seek
             w = rng.integers(0, 3)
@@ -193,6 +214,25 @@ class _Reader:
                           lambda: dict(desc, ops=hist[-12:], expected_pos=mpos, got_pos=got),
                           message=f"tell()={got}, model says {mpos}")
                 mpos = got
+            elif op[0] == "readline":
+                limit = op[1]
+                data = hf.readline() if limit is None else hf.readline(limit)
+                exp = model_readline(blob, mpos, limit)
+                p0 = mpos
+                ctx.check("read_bytes", bytes(data) == exp,
+                          lambda: dict(desc, ops=hist[-12:], pos=p0, limit=limit,
+                                       expected=exp[:80], got=bytes(data)[:80],
+                                       expected_len=len(exp), got_len=len(data)),
+                          message=f"readline({'' if limit is None else limit}) at pos {p0} of "
+                                  f"{size} returned {len(data)} bytes, a file holding the "
+                                  f"resource returns {len(exp)}")
+                ctx.count("line_reads")
+                got = hf.tell()
+                ctx.check("position", got == p0 + len(exp),
+                          lambda: dict(desc, ops=hist[-12:], expected_pos=p0 + len(exp),
+                                       got_pos=got),
+                          message=f"tell()={got} after readline at {p0}")
+                mpos = got
             else:
                 n = op[1]
                 data = hf.read(n)
@@ -248,9 +288,26 @@ def run_seq(ctx, idx):
         size = max(1, k * cs + int(rng.integers(-1, 2)))
     keep = int(rng.choice(KEEPS))
     blob = rng.bytes(size)
+    p_line = 0.0
+    if idx % 4 == 1:
+        # a text-like resource read line by line as well: short lines, blank lines, lines
+        # spanning chunks, newlines on both sides of chunk boundaries
+        alphabet = np.frombuffer(b"\n\nab cd\r", dtype=np.uint8)
+        arr = alphabet[rng.integers(0, len(alphabet), size)].copy()
+        if rng.random() < 0.5:
+            arr[rng.random(size) < 0.9] = ord("x")                  # mostly long lines
+        for b in range(0, size, cs):
+            q = rng.random()
+            if q < 0.3:
+                arr[b] = 10                                          # first byte of a chunk
+            elif q < 0.5 and b:
+                arr[b - 1] = 10                                      # last byte of a chunk
+        blob = arr.tobytes()
+        p_line = 0.35
+        ctx.count("text_like_resources")
     url = f"http://fake.invalid/res{idx}.bin"
     n_ops = int(rng.integers(5, 300 if ctx.tier == "thorough" else 120))
-    ops = gen_ops(rng, size, cs, n_ops)
+    ops = gen_ops(rng, size, cs, n_ops, blob, p_line)
     ses = FakeSession({url: blob})
     readers = [_Reader(ctx, url, blob, ses, cs, keep, ops, 0)]
     # every third case: several file objects for the same resource live in one process, each
@@ -263,7 +320,7 @@ def run_seq(ctx, idx):
             small = [c for c in CHUNKS if size / c <= 64] or [cs]
             cs2 = int(rng.choice(small)) if rng.random() < 0.8 else cs
             keep2 = int(rng.choice(KEEPS))
-            ops2 = gen_ops(rng, size, cs2, int(rng.integers(5, n_ops + 1)))
+            ops2 = gen_ops(rng, size, cs2, int(rng.integers(5, n_ops + 1)), blob, p_line)
             readers.append(_Reader(ctx, url, blob, ses, cs2, keep2, ops2, t))
         ctx.count("cases_with_several_file_objects")
     extra = {"file_objects": [(r.cs, r.keep) for r in readers]} if n_readers > 1 else {}
